@@ -296,7 +296,7 @@ def run(ctx, replay):
 
     # a universe larger than pkg/client's page size (1000) and, in the thorough tier, than the server's enumerate
     # cap (10000): blobs injected behind the server's back, read through both clients
-    hn = 1100 if quick else 10050
+    hn = 10050
 
     def work(kc):
         k, cfg = kc
